@@ -34,7 +34,7 @@ func c07(args []string) {
 	for i := 0; i < na; i++ {
 		max := []int{2, 3, 4, 6}[rng.Intn(4)]
 		nproc := 2 + rng.Intn(3)
-		o := gen.ContentionOpts{Max: max, Procs: nproc, TasksPer: 2 + rng.Intn(3), SleepLo: 2, SleepHi: 25, GoFunc: true}
+		o := gen.ContentionOpts{Max: max, Procs: nproc, TasksPer: 2 + rng.Intn(3), SleepLo: 2, SleepHi: 25, GoFunc: true, Prepend: true}
 		s, bh := gen.Contention(rng, fmt.Sprintf("mix%d", i), o)
 		cfg := Cfg{Buf: []int{1, 3, 128}[rng.Intn(3)], Procs: []int{1, 2, 4, 8}[rng.Intn(4)], Sched: fmt.Sprintf("%d,700,3000", rng.Intn(1<<30))}
 		jobs = append(jobs, &job{s: s, bh: bh, cfg: cfg, kind: "mixed"})
